@@ -9,7 +9,7 @@
    produce errors, not crashes.  Proved here for the model formatter fmt = print ∘ norm ∘ parse;
    for format.Source it is checked on generated programs only (hence "partial"). *)
 From Coq Require Import List String Bool.
-From GZ Require Import C20.Model C20.Proofs C20.Check C20.ProofsCheck C20.Scanner C20.ScannerProofs C20.ScannerFuel.
+From GZ Require Import C20.Model C20.Proofs C20.Check C20.ProofsCheck C20.Scanner C20.ScannerProofs C20.ScannerFuel C20.ParserFuel.
 Import ListNotations.
 Open Scope string_scope.
 Open Scope list_scope.
@@ -187,6 +187,33 @@ Example ex_scan_errors :
   scan "1sx y" = ([tP KDur "1s"; tI "x"; tI "y"], [], true) /\
   scan "1s2x y" = ([tP KIllegal "x"], [], true) /\
   scan "type T { A int `json" = ([tI "type"; tI "T"; tP KLBrace "{"; tI "A"; tI "int"], [], false).
+Proof. vm_compute. repeat split; reflexivity. Qed.
+
+(* ---- "... and the parser reports errors rather than crashing", on the model.  [parse] answers [None]
+   for a syntax error and would answer [None] when out of fuel: it never is.  On EVERY token stream
+   (valid or not) every sub-parser consumes what it accepts, so any fuel and any gas above the number
+   of tokens give the answer of [parse] -- a rejection by the model parser is always one of its
+   expectation tests failing (the places where parser.go appends to p.errors) *)
+Theorem parser_fuel_never_runs_out : forall ts f g,
+  List.length ts < f -> List.length ts < g -> p_stmts f g ts = parse ts.
+Proof. exact parse_fuel. Qed.
+Print Assumptions parser_fuel_never_runs_out.
+
+(* ... and the statement loop of Parser.Parse cannot spin: an accepted statement consumes a token *)
+Theorem parser_statement_consumes_input : forall f ts s r,
+  p_stmt f ts = Some (s, r) -> List.length r < List.length ts.
+Proof. exact accepted_statement_consumes. Qed.
+Print Assumptions parser_statement_consumes_input.
+
+(* invalid token streams on the model parser: a struct that is not closed, a keyword as a type name, a
+   route without a path, an ILLEGAL token, a statement that does not start with a statement word *)
+Example ex_parse_errors :
+  parse [tI "type"; tI "T"; tP KLBrace "{"; tIn "A"; tI "int"] = None /\
+  parse [tI "type"; tI "func"; tP KLBrace "{"; tP KRBrace "}"] = None /\
+  parse [tI "service"; tI "s"; tP KLBrace "{"; tPn KAtHandler "@handler"; tI "h"; tIn "get"; tP KLParen "("; tI "R"; tP KRParen ")"; tPn KRBrace "}"] = None /\
+  parse [tI "type"; tI "T"; tP KIllegal "#"] = None /\
+  parse [tI "foo"] = None /\
+  parse [] = Some [].
 Proof. vm_compute. repeat split; reflexivity. Qed.
 
 (* ---- the text layer (Text.v: the layout decisions of the Format methods and the column logic of
